@@ -6,6 +6,8 @@
 // below them are ghost lemmas that are verified, never called.
 package lime
 
+import "strings"
+
 // verifAssert is a proof obligation inside a lemma; verifAssume an assumption.
 func verifAssert(cond bool) {}
 func verifAssume(cond bool) {}
@@ -812,32 +814,40 @@ func verifAssume(cond bool) {}
 //@   modifies nothing
 
 //@ func ParseMediaType
-//@   props C02
+//@   props C01 C02
 //@   modifies nothing
+//@   ensures (result1 == nil) == mtDecodes(s)
+//@   ensures result1 == nil ==> result0 == parseMT(s)
+//@   ensures result1 != nil ==> result0 == MediaType{}
 
 //@ func (*MediaType).UnmarshalText
-//@   props C02
+//@   props C01 C02
 //@   requires m != nil
 //@   modifies *m
+//@   ensures (result == nil) == mtDecodes(bytes(text))
+//@   ensures result == nil ==> *m == parseMT(bytes(text))
+//@   ensures result != nil ==> *m == old(*m)
 
 //@ func ParseIdentity
-//@   props C02
+//@   props C01 C02
 //@   modifies nothing
+//@   ensures result == parseIdent(s)
 
 //@ func ParseNode
-//@   props C02
+//@   props C01 C02
 //@   modifies nothing
+//@   ensures result == parseNode(s)
 
 //@ func (*Node).UnmarshalText
-//@   props C02
+//@   props C01 C02
 //@   requires n != nil
-//@   ensures result == nil
+//@   ensures result == nil && *n == parseNode(bytes(text))
 //@   modifies *n
 
 //@ func (*Identity).UnmarshalText
-//@   props C02
+//@   props C01 C02
 //@   requires i != nil
-//@   ensures result == nil
+//@   ensures result == nil && *i == parseIdent(bytes(text))
 //@   modifies *i
 
 //@ func ParseLimeURI
@@ -862,8 +872,188 @@ func verifWireRawEnvelope(in *rawEnvelope) (out *rawEnvelope, err error) { panic
 //@ func verifWireRawEnvelope
 //@   derive wire
 
-//@ spec fn textOK_Node(n Node) bool = uninterpreted
-//@ spec fn textOK_MediaType(m MediaType) bool = uninterpreted
+// Text forms (C01: "parse back to the value that produced them"). The spec
+// functions mirror the code (String / Parse* are verified against them); the
+// textOK_* predicates are the values for which the round trip is the identity.
+//@ spec fn identStr(i Identity) string = ite(i == Identity{}, "", ite(i.Domain == "", i.Name, i.Name + "@" + i.Domain))
+//@ spec fn parseIdent(s string) Identity = Identity{Name: strbefore(s, "@"), Domain: strbefore(strafter(s, "@"), "@")}
+//@ spec fn nodeStr(n Node) string = ite(n == Node{}, "", ite(n.Instance == "", identStr(n.Identity), identStr(n.Identity) + "/" + n.Instance))
+//@ spec fn parseNode(s string) Node = Node{Identity: parseIdent(strbefore(s, "/")), Instance: strbefore(strafter(s, "/"), "/")}
+//@ spec fn mtStr(m MediaType) string = ite(m == MediaType{}, "", ite(m.Suffix != "", m.Type + "/" + m.Subtype + "+" + m.Suffix, m.Type + "/" + m.Subtype))
+//@ spec fn mtDecodes(s string) bool = strcontains(strbefore(s, "+"), "/") && strbefore(strbefore(s, "+"), "/") != "" && strbefore(strafter(strbefore(s, "+"), "/"), "/") != ""
+//@ spec fn parseMT(s string) MediaType = MediaType{Type: strbefore(strbefore(s, "+"), "/"), Subtype: strbefore(strafter(strbefore(s, "+"), "/"), "/"), Suffix: strbefore(strafter(s, "+"), "+")}
+//@ spec fn noSep(s string, a string, b string) bool = !strcontains(s, a) && !strcontains(s, b)
+//@ spec fn textOK_Identity(i Identity) bool = !strcontains(i.Name, "@") && !strcontains(i.Domain, "@")
+//@ spec fn textOK_Node(n Node) bool = noSep(n.Name, "@", "/") && noSep(n.Domain, "@", "/") && !strcontains(n.Instance, "/")
+//@ spec fn textOK_MediaType(m MediaType) bool = m.Type != "" && m.Subtype != "" && noSep(m.Type, "/", "+") && noSep(m.Subtype, "/", "+") && !strcontains(m.Suffix, "+")
+// What encoding/json computes for a TextMarshaler field: parse(string(v)). Opaque
+// outside the text lemmas, so that envelope-level queries stay free of string reasoning.
+//@ spec fn opaque textRT_Node(n Node) Node = parseNode(nodeStr(n))
+//@ spec fn opaque textRT_MediaType(m MediaType) MediaType = parseMT(mtStr(m))
+//@ spec fn opaque textDecodes_MediaType(m MediaType) bool = mtDecodes(mtStr(m))
+//@ spec fn textDecodes_Node(n Node) bool = true
+//@ spec fn textRT_NotificationEvent(e NotificationEvent) NotificationEvent = e
+//@ spec fn textDecodes_NotificationEvent(e NotificationEvent) bool = validEvent(e)
+//@ spec fn textRT_CommandMethod(m CommandMethod) CommandMethod = m
+//@ spec fn textDecodes_CommandMethod(m CommandMethod) bool = validMethod(m)
+//@ spec fn textRT_SessionState(s SessionState) SessionState = s
+//@ spec fn textDecodes_SessionState(s SessionState) bool = validState(s)
+
+//@ func (Identity).String
+//@   props C01 C02
+//@   modifies nothing
+//@   ensures result == identStr(i)
+//@ func (Node).String
+//@   props C01 C02
+//@   modifies nothing
+//@   ensures result == nodeStr(n)
+//@ func (MediaType).String
+//@   props C01 C02
+//@   modifies nothing
+//@   ensures result == mtStr(m)
+//@ func (Node).MarshalText
+//@   props C01 C02
+//@   modifies nothing
+//@   ensures result1 == nil && bytes(result0) == nodeStr(n)
+//@ func (Identity).MarshalText
+//@   props C01 C02
+//@   modifies nothing
+//@   ensures result1 == nil && bytes(result0) == identStr(i)
+//@ func (MediaType).MarshalText
+//@   props C01 C02
+//@   modifies nothing
+//@   ensures result1 == nil && bytes(result0) == mtStr(m)
+
+// Text lemmas: String then Parse is the identity on textOK values (C01), and a
+// parsed value is a fixpoint of String∘Parse (C02; this is what justifies the
+// decoder facts parsed_* in decodedRaw).
+//@ lemma lemmaSplitConcat
+//@   props C01 C02
+//@   requires len(sep) == 1 && !strcontains(a, sep)
+//@   ensures strbefore(a + sep + b, sep) == a && strafter(a + sep + b, sep) == b && strcontains(a + sep + b, sep)
+//@ lemma lemmaNoSepConcat
+//@   props C01 C02
+//@   requires len(sep) == 1 && !strcontains(a, sep) && !strcontains(mid, sep) && !strcontains(b, sep)
+//@   ensures !strcontains(a + mid + b, sep)
+//@ func verifBefore
+//@   trusted ghost function naming strbefore(s, sep)
+//@   modifies nothing
+//@   ensures result == strbefore(s, sep)
+//@ func verifAfter
+//@   trusted ghost function naming strafter(s, sep)
+//@   modifies nothing
+//@   ensures result == strafter(s, sep)
+//@ lemma lemmaBeforeClean
+//@   props C02
+//@   requires len(sep) == 1
+//@   ensures !strcontains(strbefore(s, sep), sep)
+//@ lemma lemmaSubClean
+//@   props C02
+//@   requires len(sep) == 1 && len(c) == 1 && !strcontains(s, c)
+//@   ensures !strcontains(strbefore(s, sep), c) && !strcontains(strafter(s, sep), c)
+//@ lemma lemmaTextIdentity
+//@   props C01
+//@   requires textOK_Identity(i)
+//@   ensures result == i
+//@ lemma lemmaTextNode
+//@   props C01
+//@   reveals textRT_Node
+//@   requires textOK_Node(n)
+//@   ensures result == n && textRT_Node(n) == n
+//@ lemma lemmaTextMediaType
+//@   props C01
+//@   reveals textRT_MediaType, textDecodes_MediaType
+//@   requires textOK_MediaType(m)
+//@   ensures result1 == nil && result0 == m && textRT_MediaType(m) == m && textDecodes_MediaType(m)
+//@ lemma lemmaStableIdentity
+//@   props C02
+//@   ensures result0 == result1
+//@ lemma lemmaStableNode
+//@   props C02
+//@   reveals textRT_Node
+//@   ensures result0 == result1 && textRT_Node(result0) == result0
+//@ lemma lemmaStableMediaType
+//@   props C02
+//@   reveals textRT_MediaType, textDecodes_MediaType
+//@   ensures accepted ==> ok2 && m2 == m && textRT_MediaType(m) == m && textDecodes_MediaType(m)
+
+// lemmaSplitConcat: splitting a ++ sep ++ b at the first sep gives back a and b
+// when a contains no sep (pure string fact; the body is empty).
+func lemmaSplitConcat(a, sep, b string) {}
+
+func lemmaTextIdentity(i Identity) Identity {
+	lemmaSplitConcat(i.Name, "@", i.Domain)
+	return ParseIdentity(i.String())
+}
+func lemmaTextNode(n Node) Node {
+	lemmaSplitConcat(n.Name, "@", n.Domain)
+	lemmaSplitConcat(n.Identity.String(), "/", n.Instance)
+	return ParseNode(n.String())
+}
+// lemmaNoSepConcat: a one-character separator absent from three strings is absent from their concatenation.
+func lemmaNoSepConcat(a, mid, b, sep string) {}
+
+func lemmaTextMediaType(m MediaType) (MediaType, error) {
+	lemmaSplitConcat(m.Type, "/", m.Subtype)
+	lemmaNoSepConcat(m.Type, "/", m.Subtype, "+")
+	if m.Suffix != "" {
+		lemmaSplitConcat(m.Type+"/"+m.Subtype, "+", m.Suffix)
+	}
+	return ParseMediaType(m.String())
+}
+func lemmaStableIdentity(s string) (Identity, Identity) {
+	i := ParseIdentity(s)
+	return i, ParseIdentity(i.String())
+}
+// Ghost string functions (contracts only; never executed) used to name the
+// pieces of a split inside lemma bodies.
+func verifBefore(s, sep string) string {
+	if i := strings.Index(s, sep); i >= 0 {
+		return s[:i]
+	}
+	return s
+}
+func verifAfter(s, sep string) string {
+	if i := strings.Index(s, sep); i >= 0 {
+		return s[i+len(sep):]
+	}
+	return ""
+}
+
+// lemmaBeforeClean: the part before the first separator contains no separator.
+func lemmaBeforeClean(s, sep string) {}
+
+// lemmaSubClean: a character absent from s is absent from both sides of a split of s.
+func lemmaSubClean(s, sep, c string) {}
+
+func lemmaStableNode(s string) (Node, Node) {
+	n := ParseNode(s)
+	head, tail := verifBefore(s, "/"), verifAfter(s, "/")
+	lemmaBeforeClean(s, "/")
+	lemmaBeforeClean(tail, "/")
+	lemmaBeforeClean(head, "@")
+	lemmaSubClean(head, "@", "/")
+	rest := verifAfter(head, "@")
+	lemmaBeforeClean(rest, "@")
+	lemmaSubClean(rest, "@", "/")
+	return n, lemmaTextNode(n)
+}
+func lemmaStableMediaType(s string) (m MediaType, m2 MediaType, accepted bool, ok2 bool) {
+	m, err := ParseMediaType(s)
+	if err != nil {
+		return m, m, false, false
+	}
+	main, tail := verifBefore(s, "+"), verifAfter(s, "+")
+	lemmaBeforeClean(s, "+")
+	lemmaBeforeClean(tail, "+")
+	lemmaBeforeClean(main, "/")
+	lemmaSubClean(main, "/", "+")
+	rest := verifAfter(main, "/")
+	lemmaBeforeClean(rest, "/")
+	lemmaSubClean(rest, "/", "+")
+	m2, err2 := lemmaTextMediaType(m)
+	return m, m2, true, err2 == nil
+}
 //@ spec fn textOK_NotificationEvent(e NotificationEvent) bool = validEvent(e)
 //@ spec fn textOK_CommandMethod(m CommandMethod) bool = validMethod(m)
 //@ spec fn textOK_SessionState(s SessionState) bool = validState(s)
@@ -875,8 +1065,7 @@ func verifWireRawEnvelope(in *rawEnvelope) (out *rawEnvelope, err error) { panic
 //@ spec fn seq_SessionCompression(s []SessionCompression) int = uninterpreted
 //@ spec fn seq_AuthenticationScheme(s []AuthenticationScheme) int = uninterpreted
 
-//@ spec fn wfNodeOpt(n Node) bool = n != Node{} ==> textOK_Node(n)
-//@ spec fn wfEnvelope(e *Envelope) bool = wfNodeOpt(e.From) && wfNodeOpt(e.PP) && wfNodeOpt(e.To)
+//@ spec fn wfEnvelope(e *Envelope) bool = textOK_Node(e.From) && textOK_Node(e.PP) && textOK_Node(e.To)
 //@ spec fn wfDoc(d Document, t MediaType) bool = d != nil && jsonOK(d) && d.text != "null" && docDecodes(d.text, tagof(d)) && textOK_MediaType(t) && tagof(d) == factoryTag(resolveFactory(t)) && resolveFactory(t) != nil
 //@ spec fn eqMeta(a map[string]string, b map[string]string) bool = mapsame(a, b) || (mapempty(a) && mapempty(b))
 //@ spec fn eqEnvelope(a *Envelope, b *Envelope) bool = a.ID == b.ID && a.From == b.From && a.PP == b.PP && a.To == b.To && eqMeta(a.Metadata, b.Metadata)
@@ -892,6 +1081,10 @@ func verifWireRawEnvelope(in *rawEnvelope) (out *rawEnvelope, err error) { panic
 //@   ensures ok && eqMessage(e2, e)
 
 func lemmaRoundtripMessage(e *Message) (e2 *Message, ok bool) {
+	lemmaTextNode(e.From)
+	lemmaTextNode(e.PP)
+	lemmaTextNode(e.To)
+	lemmaTextMediaType(e.Type)
 	raw, err := e.toRawEnvelope()
 	if err != nil {
 		return nil, false
@@ -951,6 +1144,9 @@ func lemmaRoundtripMessage(e *Message) (e2 *Message, ok bool) {
 //@   ensures ok && eqSession(e2, e)
 
 func lemmaRoundtripNotification(e *Notification) (e2 *Notification, ok bool) {
+	lemmaTextNode(e.From)
+	lemmaTextNode(e.PP)
+	lemmaTextNode(e.To)
 	raw, err := e.toRawEnvelope()
 	if err != nil {
 		return nil, false
@@ -971,6 +1167,12 @@ func lemmaRoundtripNotification(e *Notification) (e2 *Notification, ok bool) {
 }
 
 func lemmaRoundtripRequest(e *RequestCommand) (e2 *RequestCommand, ok bool) {
+	lemmaTextNode(e.From)
+	lemmaTextNode(e.PP)
+	lemmaTextNode(e.To)
+	if e.Type != nil {
+		lemmaTextMediaType(*e.Type)
+	}
 	raw, err := e.toRawEnvelope()
 	if err != nil {
 		return nil, false
@@ -991,6 +1193,12 @@ func lemmaRoundtripRequest(e *RequestCommand) (e2 *RequestCommand, ok bool) {
 }
 
 func lemmaRoundtripResponse(e *ResponseCommand) (e2 *ResponseCommand, ok bool) {
+	lemmaTextNode(e.From)
+	lemmaTextNode(e.PP)
+	lemmaTextNode(e.To)
+	if e.Type != nil {
+		lemmaTextMediaType(*e.Type)
+	}
 	raw, err := e.toRawEnvelope()
 	if err != nil {
 		return nil, false
@@ -1011,6 +1219,9 @@ func lemmaRoundtripResponse(e *ResponseCommand) (e2 *ResponseCommand, ok bool) {
 }
 
 func lemmaRoundtripSession(e *Session) (e2 *Session, ok bool) {
+	lemmaTextNode(e.From)
+	lemmaTextNode(e.PP)
+	lemmaTextNode(e.To)
 	raw, err := e.toRawEnvelope()
 	if err != nil {
 		return nil, false
@@ -1054,6 +1265,10 @@ func lemmaRoundtripSession(e *Session) (e2 *Session, ok bool) {
 //@   ensures ok && eqSession(e2, e)
 
 func lemmaReceiveMessage(e *Message) (e2 *Message, ok bool) {
+	lemmaTextNode(e.From)
+	lemmaTextNode(e.PP)
+	lemmaTextNode(e.To)
+	lemmaTextMediaType(e.Type)
 	raw, err := e.toRawEnvelope()
 	if err != nil {
 		return nil, false
@@ -1071,6 +1286,9 @@ func lemmaReceiveMessage(e *Message) (e2 *Message, ok bool) {
 }
 
 func lemmaReceiveNotification(e *Notification) (e2 *Notification, ok bool) {
+	lemmaTextNode(e.From)
+	lemmaTextNode(e.PP)
+	lemmaTextNode(e.To)
 	raw, err := e.toRawEnvelope()
 	if err != nil {
 		return nil, false
@@ -1088,6 +1306,12 @@ func lemmaReceiveNotification(e *Notification) (e2 *Notification, ok bool) {
 }
 
 func lemmaReceiveRequest(e *RequestCommand) (e2 *RequestCommand, ok bool) {
+	lemmaTextNode(e.From)
+	lemmaTextNode(e.PP)
+	lemmaTextNode(e.To)
+	if e.Type != nil {
+		lemmaTextMediaType(*e.Type)
+	}
 	raw, err := e.toRawEnvelope()
 	if err != nil {
 		return nil, false
@@ -1105,6 +1329,12 @@ func lemmaReceiveRequest(e *RequestCommand) (e2 *RequestCommand, ok bool) {
 }
 
 func lemmaReceiveResponse(e *ResponseCommand) (e2 *ResponseCommand, ok bool) {
+	lemmaTextNode(e.From)
+	lemmaTextNode(e.PP)
+	lemmaTextNode(e.To)
+	if e.Type != nil {
+		lemmaTextMediaType(*e.Type)
+	}
 	raw, err := e.toRawEnvelope()
 	if err != nil {
 		return nil, false
@@ -1122,6 +1352,9 @@ func lemmaReceiveResponse(e *ResponseCommand) (e2 *ResponseCommand, ok bool) {
 }
 
 func lemmaReceiveSession(e *Session) (e2 *Session, ok bool) {
+	lemmaTextNode(e.From)
+	lemmaTextNode(e.PP)
+	lemmaTextNode(e.To)
 	raw, err := e.toRawEnvelope()
 	if err != nil {
 		return nil, false
@@ -1147,12 +1380,11 @@ func lemmaReceiveSession(e *Session) (e2 *Session, ok bool) {
 // parse(String(parse(s))) == parse(s), stated per text type and discharged
 // separately (text-form checks); they enter here as named assumptions.
 
-//@ spec fn parsed_Node(n Node) bool = uninterpreted
-//@ spec fn parsed_MediaType(m MediaType) bool = uninterpreted
+//@ spec fn parsed_Node(n Node) bool = textRT_Node(n) == n  ## holds for every ParseNode(s): lemmaStableNode
+//@ spec fn parsed_MediaType(m MediaType) bool = textDecodes_MediaType(m) && textRT_MediaType(m) == m  ## holds for every accepted ParseMediaType(s): lemmaStableMediaType
 //@ spec fn rawJSON(c *json.RawMessage) bool = c != nil ==> jsonValid(bytes(*c)) && bytes(*c) != "null"
 //@ spec fn decodedRaw(r *rawEnvelope) bool = (r.From != nil ==> parsed_Node(*r.From)) && (r.PP != nil ==> parsed_Node(*r.PP)) && (r.To != nil ==> parsed_Node(*r.To)) && (r.Type != nil ==> parsed_MediaType(*r.Type)) && rawJSON(r.Content) && rawJSON(r.Resource) && rawJSON(r.Authentication) && (r.Event != nil ==> validEvent(*r.Event)) && (r.Method != nil ==> validMethod(*r.Method)) && (r.State != nil ==> validState(*r.State)) && (r.URI != nil ==> parsed_URI(r.URI))
-//@ spec fn stableNode(p *Node) bool = p != nil && parsed_Node(*p) ==> textOK_Node(*p)
-//@ spec fn stableRaw(r *rawEnvelope) bool = stableNode(r.From) && stableNode(r.PP) && stableNode(r.To) && (r.Type != nil && parsed_MediaType(*r.Type) ==> textOK_MediaType(*r.Type)) && (r.URI != nil && parsed_URI(r.URI) ==> textOK_URI(r.URI))
+//@ spec fn stableRaw(r *rawEnvelope) bool = r.URI != nil && parsed_URI(r.URI) ==> textOK_URI(r.URI)  ## URI text stability rests on net/url (assumed); nodes and media types are proved by lemmaStable*
 
 
 // typed decoder path: accepted by Message.populate (what Message.UnmarshalJSON runs)
